@@ -13,7 +13,8 @@ typedef uint32_t	a_word_t;
 #define A_DIG		20
 #define A_LENB		8
 #define A_BE		1	/* big endian words and length (FIPS 180-4 5.1.1, 6.1) */
-#define A_HAVOC		320	/* W[80] scratch */
+#define A_HAVOC		80	/* W[80] scratch */
+typedef uint32_t	a_havoc_t;
 #include "v_ref_sha1.h"
 #define a_iv		v_sha1_iv
 #define a_ref_compress	v_ref_sha1_compress
@@ -37,7 +38,8 @@ static void v_sha1_transform_stub(struct sha1_ctx_s *ctx, const uint8_t *blocks,
 	for (unsigned guard = 0; blocks < blocks_max && guard < V_MAXCALLS; blocks += SHA1_MSG_BLK_SIZE, guard++) {
 		unsigned k = v_abs_step(ctx->hash, blocks);
 		if (k < V_MAXCALLS)
-			memcpy(ctx->W, v_havoc[k], sizeof(ctx->W));
+			for (size_t i = 0; i < A_HAVOC; i++)
+				ctx->W[i] = v_havoc[k][i];
 	}
 	V_ASSERT(!(blocks < blocks_max), "transform asked for more blocks than any padded message of this shape has");
 }
